@@ -571,7 +571,14 @@ func (sm *Subscriptions) NewStateCtx(state string) context.Context {
 	defer sm.Mx.Unlock()
 
 	if _, ok := sm.stateCtx[state]; ok {
-		return sm.stateCtx[state].Ctx
+		if sm.isCurrentStateCtx(state) {
+			return sm.stateCtx[state].Ctx
+		}
+
+		// bound to a previous tick: the running transition has applied its
+		// target and is about to cancel it
+		sm.stateCtx[state].Cancel()
+		delete(sm.stateCtx, state)
 	}
 
 	// store a fingerprint
